@@ -9,6 +9,7 @@ package parser
 //@ ghost rest string
 //@ ghost last string
 //@ ghost scans int
+//@ ghost errs int
 
 //@ macro posOK(s *scanner) bool = s != nil && s.pos.Char >= 0 && (forall i int :: 0 <= i && i < len(s.pos.Lines) ==> s.pos.Lines[i] >= 0)
 //@ macro canUnread(s *scanner) bool = s.pos.Char > 0 || len(s.pos.Lines) > 0
@@ -126,5 +127,10 @@ package parser
 //@   requires[C11] l.scanner.r != nil && yylval != nil
 //@   ensures C12.eof: result == 0 ==> rest == ""
 //@   ensures C12.oneScan: scans == old(scans) + 1
+//@   ensures C11.lexSilent: errs == old(errs)      // the error channel (capacity 1) is left to the parser driver's single report
 //@   ensures C11.lexPos: posOK(l.scanner)
 //@   safety C11
+
+// Error reports are events; the channel send itself is not modelled.
+//@ contract (*lexer).Error
+//@   emits errs = old(errs) + 1
